@@ -103,6 +103,11 @@ pub struct HalState {
     pub poison: u8,
     /// indices of live shares (kept small so long soaks stay linear)
     pub live_idx: Vec<usize>,
+    /// an empty buffer may be shared without a ledger complaint (deliberately malformed submission)
+    pub allow_empty: bool,
+    /// the next shares may be larger than the harness's device-address stride (a deliberately huge
+    /// caller buffer): such a share is recorded but neither bounced nor flagged
+    pub allow_huge: bool,
     /// new shares are made in place (no bounce buffer): what the device writes is in the caller's
     /// buffer at once, as on a platform without an IOMMU / bounce buffers
     pub inplace: bool,
@@ -334,10 +339,11 @@ unsafe impl Hal for LedgerHal {
             let ptr = buffer.as_ptr() as *mut u8;
             let k = h.shares.len();
             let name = h.buf_name(ptr, len);
-            if len == 0 {
+            if len == 0 && !h.allow_empty {
                 h.violations.push(format!("share of empty buffer {}", name));
             }
-            if len as u64 > SHARE_STRIDE {
+            let huge = len as u64 > SHARE_STRIDE;
+            if huge && !h.allow_huge {
                 h.violations.push(format!("share of {} bytes exceeds harness stride", len));
             }
             if direction == BufferDirection::Both {
@@ -351,7 +357,15 @@ unsafe impl Hal for LedgerHal {
                 }
             }
             h.live_idx.push(k);
-            let inplace = h.inplace;
+            let inplace = h.inplace || huge;
+            if h.inplace && !huge && direction != BufferDirection::DriverToDevice && len > 0 {
+                // in place, a device-writable buffer belongs to the device from this moment: it may write
+                // it at any time, so its contents are unspecified until the completion is consumed.
+                // The platform scribbles over it at once (the same bytes a bounce buffer starts with):
+                // a driver that reads the buffer after handing it over sees them.
+                // SAFETY: the caller guarantees the buffer is valid for writes while shared.
+                unsafe { std::ptr::write_bytes(ptr, h.poison, len) };
+            }
             let mut bounce = if inplace { Vec::new() } else { vec![h.poison; len] };
             if !inplace && direction != BufferDirection::DeviceToDriver {
                 // SAFETY: caller guarantees the buffer is valid.
